@@ -398,7 +398,7 @@ def judge_case(case) -> List[Dict[str, str]]:
         # (1) stored / reported / notified / callback values conform to the declared constraints
         if not ref.consistent(props):
             return  # no conforming value exists for an inconsistent set (generator avoids them)
-        suffix = (":always-null" if an else "") + (":after-raising-override" if raised and kind == "override" else "")
+        after_raising_override = bool(raised) and kind == "override"
         seen = [("notified" if k == "notify" else "callback-argument", v) for k, v in info["events"]]
         seen.append(("stored", info["stored"]))
         if info["reported"] is not _NOVALUE:
@@ -407,7 +407,14 @@ def judge_case(case) -> List[Dict[str, str]]:
             why = ref.nonconformity(props, an, allow, v)
             if why and not fails:
                 shown = {k: props[k] for k in ("Format", "minValue", "maxValue", "minStep", "ValidValues", "maxLen") if k in props}
-                bad(f"C09:{where}-{why}{suffix}",
+                if after_raising_override:
+                    # the override raised after it had replaced the property set
+                    sig = "C09:override-raised-after-replacing-properties"
+                elif an and where in ("notified", "callback-argument"):
+                    sig = "C09:always-null-emits-nonconforming-value"
+                else:
+                    sig = f"C09:{where}-{why}" + (":always-null" if an else "")
+                bad(sig,
                     f"after {kind}" + (f"({_show_op(op)})" if op else "") + (f" raising {raised}" if raised else "")
                     + f" the {where} value {v!r:.60} violates the declared constraints {shown!r:.200}", i)
 
